@@ -1,6 +1,6 @@
 """C11 — frame views: op sequences over a pool of frames/views, step-by-step against BS.Frame."""
 PID = "C11"
-CASE_LIMIT = {"C11": 15}   # seconds: these cases are function calls, not sessions
+CASE_LIMIT = {"C11": 45}   # seconds: these cases are function calls, not sessions
 EXACT = True
 RULE = ("op sequences (slice/pfx/grow/ensure/make/copy/append/swap/zero/less/hash/sort/ptr, and codec = the view written by the row-stream "
         "encoder and decoded into a fresh frame) over a pool of "
